@@ -392,7 +392,7 @@ def run_impl(case):
         r = _run_flow(case)
         stats = {"flow": 1, "fault_hit": 1 if r["raised"] else 0, f"outcome:{r['outcome']}": 1,
                  "flow_if_failed": sum(1 for h in r["raised"] if h in case["ifs"]),
-                 "flow_cosimulated": int(not case["exec"]), "flow_refusals": sum(1 for c in r["collected"] if "refused" in c),
+                 "flow_with_executor": int(bool(case["exec"])), "flow_refusals": sum(1 for c in r["collected"] if "refused" in c),
                  "flow_runs_of_some_node>1": int(any(r["exec_log"].count(i) > 1 for i in set(r["exec_log"])))}
         return {"obs": [str(sorted((k, str(v)) for k, v in r.items()))], "r": r, "runs": [r], "stats": stats}
     if case["kind"] == "nest":
@@ -416,6 +416,7 @@ def run_impl(case):
                  "macro_on_exec": sum(1 for l in case["exec"] if l not in r["calls"]),
                  "late_completions": len(r["trace"]), "prerun": int(bool(case.get("prerun"))),
                  "several_faults": int(len(hit) > 1), "history_runs": len(r.get("more", ())),
+                 "suppressed": int(bool(case.get("suppress"))), "outer_macro": int(case.get("outer") == "macro"),
                  **{f"exc:{case['fails'][l]}": 1 for l in hit},
                  **({"nest_dfs_cases": 1, "nest_dfs_schedules": len(runs)} if runs else {})}
         return {"obs": _nest_obs(case, r), "r": r, "runs": runs or [r], "stats": stats}
@@ -499,8 +500,8 @@ def model_input(case, impl):
     if case["kind"] == "ktab":
         return [f"ktab {_kind_of(case['exc'])} " + " ".join("1" if e else "0" for e in case["execs"] + [False])]
     if case["kind"] == "flow":
-        # Signal.compositeRun is the loop with local children: flows without executor children are co-simulated
-        return _flow_model_input(case, impl["r"]) if not case["exec"] else ["n 0", "run"]
+        # local flows on Signal.compositeRun, flows with executor children on FlowExec.xrun
+        return _flow_model_input(case, impl["r"])
     if case["kind"] == "nest":
         lines = []
         for k, r in enumerate(impl["runs"]):
@@ -515,6 +516,7 @@ def model_input(case, impl):
                     lines.append("fails " + " ".join(str(i) for i in range(n) if _pstr(p + (i,)) in step["fails"]))
                 lines.append("nsched " + " ".join(rk["trace"]))
                 lines.append("nrerun")
+                lines.append(_ncycle(case))
         return lines
     if case["kind"] != "dag" or case.get("prerun") or case.get("force_starters"):
         return ["n 0", "run"]
@@ -544,8 +546,6 @@ def diff(case, impl, model):
                         "model": theirs[k] if k < len(theirs) else None, "variant": tag}
         return best
     if case["kind"] == "flow":
-        if case["exec"]:
-            return None
         mine = _flow_obs(case, impl["r"])
         if mine == list(model):
             return None
@@ -841,6 +841,10 @@ def gen_nest_case(rng, depth, classes, n_max=4, base=False):
                                            [c for c in comps if rng.random() < 0.2]),
                             "choices": [] if rng.random() < 0.4 else [rng.choice([0, 0, 0, 1, 2, 3]) for _ in range(60)]})
     hist = {"history": history} if history else {}
+    if not base and rng.random() < 0.3:
+        hist["suppress"] = True
+    if not base and rng.random() < 0.3:
+        hist["outer"] = "macro"
     return {"kind": "nest", **hist, "prog": prog, "fails": fails, "exec": sorted(ex),
             "mode": rng.choice(["ctl", "ctl", "ctl-cloudpickle"]),
             "choices": [] if lazy else [rng.choice([0, 0, 0, 1, 2, 3]) for _ in range(60)],
@@ -885,9 +889,23 @@ def _build_nest(case):
     from . import nodes_c06 as N
 
     N.reset()
-    wf = Workflow("w", autoload=None)
-    N.populate(wf, case["prog"])
+    if case.get("outer") == "macro":
+        # the outermost composite is a parentless macro (it fires its own `ran` / `failed` signals)
+        N.PENDING.append(case["prog"])
+        try:
+            wf = N.NestMacro(label="w")
+        finally:
+            N.PENDING.pop()
+    else:
+        wf = Workflow("w", autoload=None)
+        N.populate(wf, case["prog"])
     wf.use_cache = False
+    # listeners on the outermost composite's own signals
+    lis, aft = N.term_node(N.N_TERM - 1, label="lis"), N.term_node(N.N_TERM - 2, label="aft")
+    lis.use_cache = aft.use_cache = False
+    wf.signals.output.failed >> lis.signals.input.run
+    wf.signals.output.ran >> aft.signals.input.run
+    wf._c06_listeners = (lis, aft)
     nodes = {(): wf}
 
     def rec(owner, prog, path):
@@ -1075,15 +1093,24 @@ def _nest_one_run(case, step, wf, nodes, progs, composites, gid_path, leaf_gid, 
     with Instrument(sched):
         orig_on_run = comp.Composite._on_run
 
+        body = {}
+
         def on_run(self_):
             p = () if self_ is wf else _node_path(self_)
             if p not in wiring:
                 wiring[p] = observe(self_)
-            return orig_on_run(self_)
+            if self_ is not wf:
+                return orig_on_run(self_)
+            try:  # what the outermost composite's own loop raises (a suppressing caller does not get to see it)
+                return orig_on_run(self_)
+            except BaseException as e:  # noqa: BLE001
+                body["exc"] = e
+                raise
 
         comp.Composite._on_run = on_run
+        ret = "n/a"
         try:
-            wf.run()
+            ret = wf.run(raise_run_exceptions=not case.get("suppress", False))
         except Stuck as e:
             outcome = f"stuck:{e}"
         except BaseException as e:  # noqa: BLE001
@@ -1098,7 +1125,7 @@ def _nest_one_run(case, step, wf, nodes, progs, composites, gid_path, leaf_gid, 
         # the state at the moment the run has returned to its caller
         r = {
             "outcome": outcome,
-            "chain": _chain_tokens(exc, N, gid_path),
+            "chain": _chain_tokens(exc if exc is not None else body.get("exc"), N, gid_path),
             "chain_types": c06_chain(exc),
             "raised_is_orig": {_pstr(gid_path[g]): any(e is x for x in _chain_objs(exc)) for g, e in N.RAISED.items()},
             "raised_types": {_pstr(gid_path[g]): type(e).__name__ for g, e in N.RAISED.items()},
@@ -1117,9 +1144,17 @@ def _nest_one_run(case, step, wf, nodes, progs, composites, gid_path, leaf_gid, 
             "late_jobs": [sched.ident(j[0]) for j in sched.jobs],
             "options_seen": list(sched.options_seen),
             "recovery_file": any(f.startswith("recovery") for _d, _s, fs in __import__("os").walk(".") for f in fs),
+            "ret": "raised" if exc is not None else "none" if ret is None else "value",
+            "lis_calls": calls.count(N.N_TERM - 1), "aft_calls": calls.count(N.N_TERM - 2),
         }
         # what the outstanding jobs do when they complete after the run has returned (still under the scheduler:
         # a macro's late job runs its loop)
+        import os as _os
+
+        for _d, _s, _fs in list(_os.walk(".")):
+            for _f in _fs:
+                if _f.startswith("recovery"):
+                    _os.remove(_os.path.join(_d, _f))
         n_late = 0
         try:
             n_late = sched.drain() if sched.jobs else 0
@@ -1198,6 +1233,11 @@ def _nest_obs(case, r):
         ]
     lines.append("chain " + r["chain"])
     lines.append("status " + ("ok" if not r["outcome"].startswith("stuck") else r["outcome"]))
+    # the outermost composite's own run cycle
+    run, failed = r["flags"]["r"]
+    lines += [f"O flags {'true' if run else 'false'} {'true' if failed else 'false'}",
+              f"O failedsig {r['lis_calls']}", f"O ransig {r['aft_calls']}",
+              f"O recovery {'yes' if r['recovery_file'] else 'no'}", f"O ret {r['ret']}"]
     return lines
 
 
@@ -1231,7 +1271,13 @@ def _nest_model_input(case, r):
             lines.append("prev")
     lines.append("nsched " + " ".join(r["trace"]))
     lines.append("nrun")
+    lines.append(_ncycle(case))
     return lines
+
+
+def _ncycle(case):
+    # suppress, outermost on an executor (never), fires its own signals (a macro does, a Workflow does not), recovery on
+    return f"ncycle {int(bool(case.get('suppress')))} 0 {int(case.get('outer') == 'macro')} 1"
 
 
 def _nest_downstream(pr, roots):
@@ -1268,8 +1314,17 @@ def _nest_oracle(case, r):
         return [{"clause": "run-does-not-terminate", "detail": r["outcome"], "signature": sig("terminate")}]
     if not hit:
         return fails
-    # (a) the error reaches the caller of the outermost run, carrying the original exception
-    if not r["outcome"].startswith("raised:"):
+    # (a) the error reaches the caller of the outermost run, carrying the original exception — unless the caller asked
+    # for suppression: then nothing is raised and nothing is returned; everything below is demanded all the same
+    if case.get("suppress"):
+        if r["ret"] != "none":
+            fails.append({"clause": "error-raised-despite-suppression" if r["ret"] == "raised" else "suppressed-failure-returned-a-value",
+                          "detail": f"outcome {r['outcome']}, returned {r['ret']}", "signature": sig("suppress")})
+        if case.get("outer") == "macro" and (r["lis_calls"] != 1 or r["aft_calls"] != 0):
+            fails.append({"clause": "failed-signal-not-exactly-once",
+                          "detail": f"`failed` listener ran {r['lis_calls']} times, `ran` listener {r['aft_calls']} times",
+                          "signature": sig("failed-once")})
+    elif not r["outcome"].startswith("raised:"):
         fails.append({"clause": "error-does-not-reach-caller",
                       "detail": f"run returned normally; failing nodes {hit}", "signature": sig("reaches-caller")})
     elif len(hit) == 1:
@@ -1415,12 +1470,16 @@ def gen_flow_case(rng, classes, n_max=6):
     fl = rng.sample(range(n), min(k, n))
     # how often a node can be triggered at most; a child that is out on an executor must not be triggered again
     # meanwhile (the refusal would be a second, genuine error of the run), so only once-triggered nodes go there
+    anyx = rng.random() < 0.33
     mult = {}
     for i in hidden:
         mult[i] = (1 if i in starters else 0) + sum(mult[j] for j, t, _s in edges if t == i)
     return {"kind": "flow", "n": n, "order": order, "edges": edges, "starters": starters, "ifs": ifs,
             "fails": {str(i): rng.choice(classes) for i in fl},
-            "exec": [] if rng.random() < 0.55 else sorted(i for i in range(n) if mult[i] <= 1 and rng.random() < 0.45),
+            # mostly only once-triggered nodes go to the executor; in a third of the executor flows any node may: a
+            # child triggered again while it is out is refused (and, if it fails later, swept up with its own error)
+            "exec": [] if rng.random() < 0.5 else sorted(
+                i for i in range(n) if (mult[i] <= 1 or anyx) and rng.random() < 0.45),
             "choices": [] if rng.random() < 0.4 else [rng.choice([0, 0, 0, 1, 2, 3]) for _ in range(40)],
             "prerun": rng.random() < 0.6}
 
@@ -1577,7 +1636,9 @@ def _flow_oracle(case, r):
     if not r["outcome"].startswith("raised:"):
         fails.append({"clause": "error-does-not-reach-caller", "detail": f"run returned normally; failing nodes {hit}",
                       "signature": sig("reaches-caller")})
-    elif len(hit) == 1 and not r["raised_is_orig"].get(hit[0]):
+    elif (len(hit) == 1 and not r["raised_is_orig"].get(hit[0])
+          # a refusal of ANOTHER child (triggered again while it was out) is a second, genuine error of the run
+          and all(c.split(":")[0] == hit[0] for c in r["collected"])):
         fails.append({"clause": "original-exception-lost",
                       "detail": f"{case['fails'][hit[0]]} raised by {hit[0]} is not in the cause chain {r['chain_types']}",
                       "signature": sig("cause")})
@@ -1741,7 +1802,8 @@ def _flow_obs(case, r):
         "W truth " + " ".join(f"{i}:{'ND' if r['outs'][str(i)] == 'ND' else tv[r['truth'][str(i)]]}" for i in ifs),
         f"W seen {r['seen']}",
         "W queue 0",
-    ]
+    ] + ([f"W running [{','.join(map(str, r['running_children']))}]",
+          "W status " + ("ended" if not r["outcome"].startswith("stuck") else r["outcome"])] if case["exec"] else [])
 
 
 def _flow_model_input(case, r):
@@ -1754,6 +1816,9 @@ def _flow_model_input(case, r):
     lines.append("wfails " + " ".join(sorted(case["fails"], key=int)))
     if case.get("prerun"):
         lines.append("wpre")
+    if case["exec"]:
+        lines.append("wexec " + " ".join(map(str, case["exec"])))
+        lines.append("wsched " + " ".join(r["trace"]))
     lines.append("wrun")
     return lines
 
